@@ -1,4 +1,4 @@
-\* C15 report, required design, scaled widths (2,3), 2 files + 1 #line-only name, <= 10 lines, <= 5 items: ReportFaithful must hold
+\* C15 report, required design, scaled widths (2,3), 2 files + 1 #line-only name, <= 10 lines, <= 4 items, reports of <= 3 lines x 3 columns: ReportFaithful must hold
 CONSTANTS
   CNO = 2
   LNO = 4
@@ -9,17 +9,17 @@ CONSTANTS
   Grouping = "gline"
   SrcLen = 3
   ColSeq <- ColSeqOvf
-  MaxSel = 2
+  MaxSel = 3
   FileNames = {"a", "b"}
   TopFile = "a"
   LineNames = {"b", "o"}
   LineNums = {1, 4}
   Cols = {1, 3, 4, 9}
-  RunLens = {1, 3}
-  MaxLines = 10
+  RunLens = {1, 2}
+  MaxLines = 8
   MaxIf = 1
-  MaxItems = 5
-  Feat = {"line", "if"}
+  MaxItems = 4
+  Feat = {"line"}
   AvoidEofIf = FALSE
   AvoidCollide = FALSE
 INIT Init
